@@ -717,7 +717,7 @@ class Gen:
         if free:
             if r.random() < 0.5:
                 fa = {"name": self.nm("j")}
-                if r.random() < 0.3:
+                if r.random() < 0.3 and "freealign" in self.feat:
                     fa["align"] = r.choice(["true", "false", "auto"])
                 if r.random() < 0.3:
                     fa["group"] = str(r.randint(0, 5))
@@ -863,7 +863,7 @@ class Gen:
             self.leaf("site", self.site_attrs())
         if r.random() < 0.3 and fdepth < 2:
             self.frame(depth, bodyname, fdepth + 1)
-        if r.random() < 0.4 and depth < 3 and len(self.bodies) < self.maxbody:
+        if r.random() < 0.4 and depth < 3 and len(self.bodies) < self.maxbody and "bodyframe" in self.feat:
             self.body(depth + 1, bodyname)
         self.close("frame")
 
@@ -897,7 +897,7 @@ class Gen:
             self.cams.append(ca["name"])
             self.leaf("camera", ca)
         while len(self.bodies) < max(1, self.maxbody // 2):
-            if r.random() < 0.25:
+            if r.random() < 0.25 and "bodyframe" in self.feat:
                 self.open("frame", self.decorate("frame", {"name": self.nm("f")} if r.random() < 0.5 else {}, p=0.5))
                 self.body(0, "world")
                 self.close("frame")
